@@ -89,10 +89,21 @@ func c13Child(raw json.RawMessage) any {
 		cfg.Hosts = []string{"127.0.0.1"}
 		cfg.RollbackMitigation.Disabled = false
 		cfg.RollbackMitigation.Interval = 10 * time.Millisecond
+		if sc.State == "gate_blocked" {
+			// the gate re-checks every interval/5: an event parked in it wakes up to 60 ms after the stream was closed
+			cfg.RollbackMitigation.Interval = 300 * time.Millisecond
+		}
 		cfg.RollbackMitigation.ConfigWatchInterval = 30 * time.Millisecond
 		cfg.ConnectionTimeout = 5 * time.Second
-		maxInterval += 30 * time.Millisecond
+		maxInterval += 30*time.Millisecond + cfg.RollbackMitigation.Interval
 		client = couchbase.VerifNewClient(cfg, lb.agent, lb.agent, lb.dcp)
+		if sc.State == "gate_blocked" {
+			// hybrid: the streams are played by the harness (its own feeder goroutine, as in Layer A), the
+			// rollback-mitigation polling is real and runs against the simulated cluster
+			cl.agent = lb.agent
+			cl.snapFn = lb.dcp.ConfigSnapshot
+			client = cl
+		}
 		lb.c.Lock()
 		for v := 0; v < 16; v++ {
 			lb.c.High[uint16(v)] = 1 << 30
@@ -138,7 +149,7 @@ func c13Child(raw json.RawMessage) any {
 		next[vb]++
 		seq := next[vb]
 		feedMu.Unlock()
-		if lb != nil {
+		if lb != nil && client != couchbase.Client(cl) {
 			if s := lb.c.Stream(vb); s != nil {
 				s.Marker(seq, seq)
 				dd := simnodeDoc(seq)
@@ -208,6 +219,31 @@ func c13Child(raw json.RawMessage) any {
 		t0 = time.Now()
 		closeNow()
 		go func() { time.Sleep(slow); close(consumeBlock) }()
+	case "gate_blocked":
+		// an event above what the cluster has persisted is parked in the rollback-mitigation gate when Close arrives
+		lb.c.Lock()
+		feedMu.Lock()
+		cur := next[0]
+		feedMu.Unlock()
+		for srv := 0; srv < 3; srv++ {
+			lb.c.Persist[[2]int{0, srv}] = [2]uint64{0xA1, cur} // nothing newer is persisted on vBucket 0
+		}
+		lb.c.Unlock()
+		// the library only lowers nothing: the observer's threshold never decreases, so park an event far above it
+		// the snapshot marker starts below the threshold (it passes), the mutation lies above it (it parks
+		// inside the gate, on the harness's feeder goroutine)
+		go func() {
+			if o := cl.observer(0); o != nil {
+				o.SnapshotMarker(models.DcpSnapshotMarker{VbID: 0, StartSeqNo: cur + 1, EndSeqNo: 1<<30 + 5})
+				o.Mutation(gocbcore.DcpMutation{SeqNo: 1<<30 + 5, VbID: 0, Key: []byte("parked"), Cas: 1})
+			}
+		}()
+		feedMu.Lock()
+		next[0] = 1<<30 + 5
+		feedMu.Unlock()
+		time.Sleep(30 * time.Millisecond)
+		t0 = time.Now()
+		closeNow()
 	case "save_inflight_ok", "save_inflight_fail":
 		go d.Commit()
 		select {
@@ -278,6 +314,9 @@ func c13Child(raw json.RawMessage) any {
 	// after Start() returned: nothing may reach the consumer any more
 	before := cons.count()
 	for v := 0; v < sc.NVb; v++ {
+		if sc.State == "gate_blocked" && v == 0 {
+			continue // vBucket 0 is fed by the goroutine parked in the gate (one feeder per vBucket)
+		}
 		feed(uint16(v), "late")
 	}
 	// grace: one configured interval per component (a sleeping ticker loop may wake once more), then a quiet window
@@ -385,7 +424,7 @@ func c13Exec(sc c13Scenario) string {
 	return ""
 }
 
-var c13States = []string{"idle", "consumer_blocked", "save_inflight_ok", "save_inflight_fail", "rebalance_closed", "rebalance_delay", "rebalance_reopen"}
+var c13States = []string{"idle", "consumer_blocked", "gate_blocked", "save_inflight_ok", "save_inflight_fail", "rebalance_closed", "rebalance_delay", "rebalance_reopen"}
 
 func c13InKnownClass(sc c13Scenario) bool {
 	return strings.HasPrefix(sc.State, "rebalance_")
@@ -404,6 +443,9 @@ func c13Gen(rt *rapid.T) c13Scenario {
 	sc.Mitigate = rapid.IntRange(0, 3).Draw(rt, "mitigate") == 0
 	sc.DelayMs = rapid.SampledFrom([]int{40, 120, 300}).Draw(rt, "delay")
 	sc.SlowMs = rapid.SampledFrom([]int{0, 10, 60}).Draw(rt, "slow")
+	if sc.State == "gate_blocked" {
+		sc.Mitigate = true
+	}
 	if sc.Mitigate {
 		sc.Health = false // the real client's Ping needs a management endpoint the simulated node does not offer
 		if sc.State == "rebalance_reopen" {
